@@ -1,5 +1,6 @@
 import GrVerif.Model.Action
 import GrVerif.Model.Assoc
+import GrVerif.Model.Position
 /-!
 # The pass engine   (C06, C02)
 
@@ -285,6 +286,7 @@ structure Font where
   ipos : Nat                       -- first positioning pass
   classes : Array (List Nat)
   gattr : Array (Array Int)
+  gadv : Array Int                 -- advance widths (hmtx)
   cmap : Nat → Nat
 
 /-- the whole pipeline for a left-to-right request: text → slots → substitution passes → `associateChars` → positioning passes -/
@@ -293,9 +295,9 @@ def shape (font : Font) (text : List Nat) (fuel : Nat) : Except String (Option (
   if n = 0 then .ok (some ({ seg := {}, smap := #[], size := 0, context := 0, maxSize := 0, map := 0, is := none }, [])) else
   let seg0 : Seg := { numGlyphs := n, numChars := n, slots := Array.replicate (n + 10) {}, free := List.range (n + 10),
                       bufSize := Nat.log2 n + 1 }
-  let seg := text.zipIdx.foldl (fun s (ch, i) => s.appendSlot i (font.cmap ch) 64) seg0
+  let seg := text.zipIdx.foldl (fun s (ch, i) => s.appendSlot i (font.cmap ch) 64 (font.gadv.getD (font.cmap ch) 0)) seg0
   let ctx0 : Ctx := { seg := seg, smap := Array.replicate (MAX_SLOTS + 2) none, size := 0, context := 0, maxSize := (n * 64 : Nat),
-                      dir := 0, map := 0, is := none, classes := font.classes, gattr := font.gattr }
+                      dir := 0, map := 0, is := none, classes := font.classes, gattr := font.gattr, gadv := font.gadv }
   match runRange font.passes ctx0 0 font.ipos fuel with
   | .error w => .error w
   | .ok none => .ok none
